@@ -79,52 +79,49 @@ theorem setBlockFree_quiet (c : Cfg) (v n : Nat) (s0 s : St) (hq : Quiet s0 s) :
   · apply Post.bind; exact Post.fault _ _ _ _ trivial
   · apply Post.setVolMem; exact hq
 
-theorem freeFileBlocksExt_quiet (c : Cfg) (v : Nat) (s0 : St) : ∀ (fuel n : Nat) (s : St), Quiet s0 s →
-    Post AnyFault c (freeFileBlocksExt v fuel n) s (fun _ s' => Quiet s0 s') := by
+theorem getFileBlocksExt_quiet (c : Cfg) (v nbData nbExt : Nat) (s0 : St) : ∀ (fuel n : Nat) (data exts : List Nat) (s : St),
+    Quiet s0 s → Post AnyFault c (getFileBlocksExt v nbData nbExt fuel n data exts) s (fun _ s' => Quiet s0 s') := by
   intro fuel
   induction fuel with
-  | zero =>
-    intro n s hq; unfold freeFileBlocksExt
-    split
-    · exact Post.pure _ _ _ _ hq
-    · exact Post.fault _ _ _ _ trivial
+  | zero => intro n d e s hq; unfold getFileBlocksExt; exact Post.pure _ _ _ _ hq
   | succ fuel ih =>
-    intro n s hq
-    unfold freeFileBlocksExt
+    intro n d e s hq
+    unfold getFileBlocksExt
     split
     · exact Post.pure _ _ _ _ hq
     · apply Post.bind; apply readFileExtBlock_quiet c v n s0 s hq
       rintro ⟨rc, ext⟩ s1 hq1
       simp only
-      apply Post.bind
-      refine Post.mono _ _ _ _ _ (Post.forIn_list c (Quiet s0) _ _ _ s1 hq1 ?_) ?_
-      · intro i b s2 hq2
-        apply Post.bind
-        refine Post.mono _ _ _ _ _ (setBlockFree_quiet c v _ s0 s2 hq2) ?_
-        intro _ s3 hq3; exact Post.pure _ _ _ _ hq3
-      · intro _ s2 hq2
-        apply Post.bind
-        refine Post.mono _ _ _ _ _ (setBlockFree_quiet c v _ s0 s2 hq2) ?_
-        intro _ s3 hq3
-        exact ih _ s3 hq3
+      split
+      · exact Post.pure _ _ _ _ hq1
+      · exact ih _ _ _ s1 hq1
 
 theorem freeFileBlocks_quiet (c : Cfg) (v : Nat) (entry : Blk) (s0 s : St) (hq : Quiet s0 s) :
     Post AnyFault c (freeFileBlocks v entry) s (fun _ s' => Quiet s0 s') := by
   unfold freeFileBlocks
+  apply Post.bind
+  unfold getFileBlocks
   apply Post.bind; apply Post.getVolCfg
   simp only
+  refine Post.mono _ _ _ _ _ (getFileBlocksExt_quiet c v _ _ s0 _ _ _ _ s hq) ?_
+  rintro ⟨rc, data, exts⟩ s1 hq1
+  simp only
   split
-  · apply Post.bind; exact Post.fault _ _ _ _ trivial
+  · exact Post.pure _ _ _ _ hq1
   · apply Post.bind
-    refine Post.mono _ _ _ _ _ (Post.forIn_list c (Quiet s0) _ _ _ s hq ?_) ?_
+    refine Post.mono _ _ _ _ _ (Post.forIn_list c (Quiet s0) _ _ _ s1 hq1 ?_) ?_
     · intro i b s2 hq2
       apply Post.bind
       refine Post.mono _ _ _ _ _ (setBlockFree_quiet c v _ s0 s2 hq2) ?_
       intro _ s3 hq3; exact Post.pure _ _ _ _ hq3
     · intro _ s2 hq2
       apply Post.bind
-      refine Post.mono _ _ _ _ _ (freeFileBlocksExt_quiet c v s0 _ _ s2 hq2) ?_
-      intro _ s3 hq3; exact Post.pure _ _ _ _ hq3
+      refine Post.mono _ _ _ _ _ (Post.forIn_list c (Quiet s0) _ _ _ s2 hq2 ?_) ?_
+      · intro i b s3 hq3
+        apply Post.bind
+        refine Post.mono _ _ _ _ _ (setBlockFree_quiet c v _ s0 s3 hq3) ?_
+        intro _ s4 hq4; exact Post.pure _ _ _ _ hq4
+      · intro _ s3 hq3; exact Post.pure _ _ _ _ hq3
 
 theorem readEntryBlock_quiet {F : Fault → Prop} (c : Cfg) (v n : Nat) (s0 s : St) (hq : Quiet s0 s) (Q : RC × Blk → St → Prop)
     (h : ∀ r s', Quiet s0 s' → Q r s') : Post F c (readEntryBlock v n) s Q := by
